@@ -284,11 +284,18 @@ def _block_label(n: ast.AST) -> str:
 
 
 def src_rule(ctx: Ctx, rid: str) -> None:
-    """Both source registers reach the interlock comparison; x0 / None producers are skipped."""
+    """The decode interlock asks for a stall exactly when an in-flight destination R is a real register
+    (not None, not x0) and equals one of the two read addresses.
+
+    The stall condition is recovered as a boolean function of the atoms {R is None, R == 0, A1 == R,
+    A2 == R}: from the paths through one iteration of the search loop (the disjunction, over the paths
+    that reach StallSignal, of the tests they passed), or from the generator condition of an
+    `any(...)`; it is compared with the required function as a truth table, so the way the tests are
+    nested, ordered or named does not matter (an extracted helper is inlined by the model)."""
+    from .symflow import Printer, parse_expr
     m = ctx.model
-    r = ctx.rule(rid, "both read addresses are compared with each in-flight destination; None/x0 skipped")
+    r = ctx.rule(rid, "decode stall  <=>  producer is a real register and equals read address 1 or 2 (truth table)")
     beh = m.method("InstructionDecodeStage", "behavior", own=True)
-    # names unpacked from access_register_file
     addr_names: list[str] = []
     for n in walk_no_nested(beh.node):
         if isinstance(n, ast.Assign) and isinstance(n.value, ast.Call) and isinstance(n.value.func, ast.Attribute) \
@@ -296,29 +303,68 @@ def src_rule(ctx: Ctx, rid: str) -> None:
             addr_names = [e.id for e in n.targets[0].elts[:2] if isinstance(e, ast.Name)]
     if len(addr_names) != 2:
         raise AnalysisError("anchor vanished: unpacking of access_register_file in ID.behavior")
-    found = False
+    a1, a2 = addr_names
+
+    def is_stall(node: ast.AST) -> bool:
+        return any(isinstance(c.func, ast.Name) and c.func.id == "StallSignal" for c in calls_in(node))
+
+    want_src = "R is not None and R != 0 and (A1 == R or A2 == R)"
+    formulas: list[tuple[ast.AST, dict, ast.AST]] = []  # (formula, alias map, location)
+    # (1) search loops
+    loops = [n for n in walk_no_nested(beh.node) if isinstance(n, (ast.For, ast.While))
+             and any(isinstance(x, ast.Name) and x.id in (a1, a2) for x in ast.walk(n))]
+    for loop in loops:
+        if not (isinstance(loop, ast.For) and isinstance(loop.target, ast.Name)):
+            r.check(False, "ID.hazard-loop", beh.loc(loop), "the interlock's search loop does not bind one producer per iteration")
+            continue
+        rn = loop.target.id
+        disj: list[ast.AST] = []
+        seen: set = set()
+        for p in function_paths(beh.node):
+            ent = [k for k, e in enumerate(p.events) if e.kind == "loop" and e.node is loop]
+            if not ent:
+                continue
+            if not p.events[ent[0]].pol:
+                if any(e.kind == "stmt" and is_stall(e.node) for e in p.events[ent[0]:]):
+                    r.check(False, "ID.hazard-loop|empty", beh.loc(loop), "a stall is requested although no producer was examined", None, p.labels()[:12])
+                continue
+            end = next((k for k, e in enumerate(p.events) if k > ent[0] and e.kind == "loopend" and e.node is loop), len(p.events))
+            if not any(e.kind == "stmt" and is_stall(e.node) for e in p.events[ent[0]:]):
+                continue
+            conj = []
+            for e in p.events[ent[0] + 1:end]:
+                if e.kind == "test" and any(isinstance(x, ast.Name) and x.id == rn for x in ast.walk(e.node)):
+                    conj.append(e.node if e.pol else ast.UnaryOp(op=ast.Not(), operand=e.node))
+            key = tuple(ast.dump(c) for c in conj)
+            if key in seen:
+                continue
+            seen.add(key)
+            disj.append(ast.BoolOp(op=ast.And(), values=conj) if len(conj) > 1 else conj[0] if conj else ast.Constant(value=True))
+        f = ast.BoolOp(op=ast.Or(), values=disj) if len(disj) > 1 else disj[0] if disj else ast.Constant(value=False)
+        formulas.append((f, {rn: "R", a1: "A1", a2: "A2"}, loop))
+    # (2) any(<cond> for R in producers)
     for n in walk_no_nested(beh.node):
-        if isinstance(n, ast.If) and any(isinstance(c.func, ast.Name) and c.func.id == "StallSignal"
-                                         for st in n.body if not isinstance(st, (ast.If, ast.For, ast.While, ast.Try))
-                                         for c in calls_in(st)):
-            found = True
-            test = n.test
-            if isinstance(test, ast.Name):  # condition bound to a local first
-                bs = [a.value for a in walk_no_nested(beh.node) if isinstance(a, ast.Assign) and len(a.targets) == 1
-                      and isinstance(a.targets[0], ast.Name) and a.targets[0].id == test.id]
-                if len(bs) == 1:
-                    test = bs[0]
-            names = {x.id for x in ast.walk(test) if isinstance(x, ast.Name)}
-            ok = set(addr_names) <= names and isinstance(test, ast.BoolOp) and isinstance(test.op, ast.Or) \
-                and all(isinstance(v, ast.Compare) and isinstance(v.ops[0], ast.Eq) for v in test.values)
-            r.check(ok, "ID.hazard-compare", beh.loc(n),
-                    f"the stall condition `{ast.unparse(test)}` does not compare both {addr_names[0]} and "
-                    f"{addr_names[1]} with the in-flight destination")
-    if not found:
-        raise AnalysisError("anchor vanished: the `if` that requests the decode stall")
+        if isinstance(n, ast.Call) and isinstance(n.func, ast.Name) and n.func.id == "any" and len(n.args) == 1 \
+                and isinstance(n.args[0], (ast.GeneratorExp, ast.ListComp)) and len(n.args[0].generators) == 1 \
+                and any(isinstance(x, ast.Name) and x.id in (a1, a2) for x in ast.walk(n)):
+            g = n.args[0].generators[0]
+            if isinstance(g.target, ast.Name):
+                parts = list(g.ifs) + [n.args[0].elt]
+                f = ast.BoolOp(op=ast.And(), values=parts) if len(parts) > 1 else parts[0]
+                formulas.append((f, {g.target.id: "R", a1: "A1", a2: "A2"}, n))
+    if not formulas:
+        raise AnalysisError("anchor vanished: the interlock's comparison of read addresses with in-flight destinations")
+    spec_p = Printer(m, [], {}, canonical=True)
+    want_b = spec_p._bool(parse_expr(want_src))
+    for f, al, at in formulas:
+        pr = Printer(m, [], al, canonical=True)
+        got_b = pr._bool(f)
+        t = pr._tables([got_b, want_b])
+        ok = t is not None and t[1][0] == t[1][1]
+        r.check(ok, "ID.hazard-compare", beh.loc(at),
+                f"the decode stall condition is `{Printer(m, [], al).show_test(f)}`; required: `{want_src}` "
+                f"(R = in-flight destination, A1/A2 = {a1}/{a2})")
     txt = " ".join(ast.unparse(beh.node).split())
-    r.check("register is None or register == 0" in txt or "register == 0 or register is None" in txt,
-            "ID.skip-x0", beh.loc(), "producers None / x0 are no longer skipped by the interlock")
     r.check(".instruction.get_write_register()" in txt, "ID.producers", beh.loc(),
             "in-flight destinations are no longer taken from get_write_register() of later latches")
 
@@ -392,64 +438,127 @@ def flushres_rule(ctx: Ctx, rid: str) -> None:
     r.floor(6)
 
 
+def _handler_raises(m, h: ast.ExceptHandler) -> list[tuple[str, dict]]:
+    """Raises of a handler body in symflow normal form: [(path condition, {kw: canonical value})] for
+    InstructionExecutionException(...), and ('cond', {'<reraise>': ''}) for a bare raise."""
+    from .model import FuncInfo as _FI
+    from .symflow import flow_of
+    fn = ast.FunctionDef(name="_handler", args=ast.arguments(posonlyargs=[], args=[], kwonlyargs=[], kw_defaults=[], defaults=[]),
+                         body=list(h.body), decorator_list=[], lineno=h.lineno, col_offset=0)
+    ast.fix_missing_locations(fn)
+    fl = flow_of(_FI("_handler", "_handler", fn, None, None), m)  # type: ignore[arg-type]
+    out = []
+    for e in fl.effects:
+        if e.kind != "raise":
+            continue
+        x = e.expr
+        if isinstance(x, ast.Call) and isinstance(x.func, ast.Name) and x.func.id == "InstructionExecutionException":
+            sig = ["address", "instruction_repr", "error_message"]
+            kw = {sig[i]: fl.canon(a) for i, a in enumerate(x.args[:3])}
+            kw.update({k.arg: fl.canon(k.value) for k in x.keywords if k.arg})
+            out.append((fl.canon_cond(e.cond), kw))
+        else:
+            out.append((fl.canon_cond(e.cond), {"<other>": fl.canon(x)}))
+    return out
+
+
+def _wraps(m, h: ast.ExceptHandler, latch: str) -> tuple[bool, object]:
+    """Every InstructionExecutionException the handler raises names `latch`'s address and instruction."""
+    rs = [kw for _, kw in _handler_raises(m, h) if "<other>" not in kw]
+    if not rs:
+        return False, None
+    ok = all(kw.get("address") == f"{latch}.address_of_instruction" and
+             kw.get("instruction_repr") in (f"{latch}.instruction.__repr__()", f"repr({latch}.instruction)") for kw in rs)
+    return ok, rs
+
+
 def fault_rule(ctx: Ctx, rid: str) -> None:
     """Run-time failures are wrapped, broadly, with the failing instruction's address."""
     m = ctx.model
     r = ctx.rule(rid, "stage exceptions are wrapped into InstructionExecutionException(address, repr) of the failing stage's input")
     step = m.method("Pipeline", "step", own=True)
-    tries = [n for n in walk_no_nested(step.node) if isinstance(n, ast.Try)]
+    parents: dict = {}
+    for n in ast.walk(step.node):
+        for c in ast.iter_child_nodes(n):
+            parents[id(c)] = n
     dispatch = [c for c in calls_in(step.node) if isinstance(c.func, ast.Attribute) and c.func.attr == "behavior"]
-    if len(dispatch) < 3:
-        raise AnalysisError(f"{rid}: only {len(dispatch)} stage dispatch sites in Pipeline.step (3 confirmed by hand)")
+    if not dispatch:
+        raise AnalysisError(f"{rid}: no stage dispatch site (`<stage>.behavior(...)`) in Pipeline.step")
     for c in dispatch:
-        host = None
-        for t in tries:
-            if any(c is x for st in t.body for x in calls_in(st)):
-                host = t
         key = f"Pipeline.step|dispatch@{_enclosing_test(step, c)}"
-        ok = host is not None
+        # the loop that walks the stages binds the index the handler uses
+        idx = None
+        n: ast.AST = c
+        chain = []
+        while id(n) in parents:
+            p = parents[id(n)]
+            chain.append((p, n))
+            n = p
+        for p, child in chain:
+            if isinstance(p, ast.For) and isinstance(p.target, ast.Name):
+                idx = p.target.id
+                break
+        ok = False
         detail = None
-        if ok:
+        between_finally = None
+        for p, child in chain:
+            if isinstance(p, ast.Try) and any(child is s for s in p.body):
+                hs = [h for h in p.handlers if (ast.unparse(h.type) if h.type is not None else "BaseException") in ("Exception", "BaseException")]
+                if hs and idx is not None:
+                    ok, detail = _wraps(m, hs[0], f"self.pipeline_registers[Sub({idx}, 1)]")
+                    break
+                if p.finalbody and any(isinstance(t, ast.Subscript) and "pipeline_registers" in ast.unparse(t.value)
+                                       for s in p.finalbody for x in ast.walk(s) if isinstance(x, (ast.Assign, ast.AugAssign))
+                                       for t in (x.targets if isinstance(x, ast.Assign) else [x.target])):
+                    between_finally = p
+        if ok and between_finally is not None:
             ok = False
-            for h in host.handlers:
-                tn = ast.unparse(h.type) if h.type is not None else "BaseException"
-                if tn in ("Exception", "BaseException"):
-                    raises = [n for n in ast.walk(h) if isinstance(n, ast.Raise) and isinstance(n.exc, ast.Call)
-                              and ast.unparse(n.exc.func) == "InstructionExecutionException"]
-                    for rz in raises:
-                        kw = {k.arg: " ".join(ast.unparse(k.value).split()) for k in rz.exc.keywords}
-                        ok = kw.get("address") == "self.pipeline_registers[index - 1].address_of_instruction" and \
-                            kw.get("instruction_repr") == "self.pipeline_registers[index - 1].instruction.__repr__()"
-                        detail = kw
-            # the handler must not be narrower than Exception
+            detail = "a `finally` between the dispatch and the wrapping handler rewrites pipeline_registers before the handler reads the failing input"
         r.check(ok, key, step.loc(c), "a stage dispatch is not inside a try whose `except Exception` handler raises "
                 "InstructionExecutionException(address/instruction_repr of pipeline_registers[index - 1])", detail)
-    # the stalled-stage branches temporarily swap inputs: the failing input must be restored before reporting?  (not claimed)
     ss = m.method("SingleStage", "behavior", own=True)
     tries = [n for n in walk_no_nested(ss.node) if isinstance(n, ast.Try)]
     ok = False
+    latch = None
     for t in tries:
         names = [c.func.attr for st in t.body for c in calls_in(st) if isinstance(c.func, ast.Attribute)]
         if "behavior" in names:
             for h in t.handlers:
                 tn = ast.unparse(h.type) if h.type is not None else "BaseException"
                 if tn in ("Exception", "BaseException"):
-                    for rz in [n for n in ast.walk(h) if isinstance(n, ast.Raise) and isinstance(n.exc, ast.Call)
-                               and ast.unparse(n.exc.func) == "InstructionExecutionException"]:
-                        kw = {k.arg: " ".join(ast.unparse(k.value).split()) for k in rz.exc.keywords}
-                        ok = kw.get("address") == "result_pr.address_of_instruction" and \
-                            kw.get("instruction_repr") == "result_pr.instruction.__repr__()"
+                    rs = [kw for _, kw in _handler_raises(m, h) if "<other>" not in kw]
+                    if rs and all(kw.get("address", "").endswith(".address_of_instruction") for kw in rs):
+                        latch = rs[0]["address"][: -len(".address_of_instruction")]
+                        ok, _ = _wraps(m, h, latch)
     r.check(ok, "SingleStage.behavior|wrap", ss.loc(), "behavior()/memory_access() of the single stage are not wrapped by "
-            "`except Exception` into InstructionExecutionException(result_pr.address_of_instruction, repr)")
-    # result_pr.address_of_instruction is the fetch address
-    txt = " ".join(ast.unparse(ss.node).split())
-    r.check("result_pr.address_of_instruction = state.program_counter" in txt, "SingleStage.behavior|address", ss.loc(),
-            "the reported address is not the program counter at fetch")
+            "`except Exception` into InstructionExecutionException(<latch>.address_of_instruction, repr(<latch>.instruction))")
+    # ... and no execution of the instruction happens outside that try
+    wrapped_ids: set = set()
+    for t in tries:
+        if any((ast.unparse(h.type) if h.type is not None else "BaseException") in ("Exception", "BaseException") for h in t.handlers):
+            for st in t.body:
+                for c in calls_in(st):
+                    wrapped_ids.add(id(c))
+    for c in calls_in(ss.node):
+        if isinstance(c.func, ast.Attribute) and c.func.attr in ("behavior", "memory_access", "process_ecall") \
+                and "instruction" in ast.unparse(c.func.value):
+            r.check(id(c) in wrapped_ids, f"SingleStage.behavior|wrapped:{c.func.attr}", ss.loc(c),
+                    f"`{seg(ss, c)}` executes the instruction outside the try that turns run-time faults into InstructionExecutionException")
+    # <latch>.address_of_instruction is the fetch address
+    ok = False
+    if latch is not None:
+        for n in walk_no_nested(ss.node):
+            if isinstance(n, ast.Assign) and len(n.targets) == 1 and ast.unparse(n.targets[0]) == f"{latch}.address_of_instruction" \
+                    and ast.unparse(n.value) == "state.program_counter":
+                ok = True
+            if isinstance(n, ast.Call) and any(k.arg == "address_of_instruction" and ast.unparse(k.value) == "state.program_counter" for k in n.keywords):
+                ok = True
+    r.check(ok, "SingleStage.behavior|address", ss.loc(), "the reported address is not the program counter at fetch")
     # the exception type itself
     ex = m.cls("InstructionExecutionException")
     r.check({"address", "instruction_repr", "error_message"} <= set(ex.anns), "InstructionExecutionException|fields", ex.loc(),
             "InstructionExecutionException lost one of address / instruction_repr / error_message")
-    r.floor(6)
+    r.floor(4)
 
 
 def _enclosing_test(f: FuncInfo, node: ast.AST) -> str:
